@@ -205,6 +205,12 @@ func sxString(n *sx) string {
 
 func tryReplay(w *World, prop, key string, r *Result) *ReplayOutcome {
 	out := &ReplayOutcome{}
+	if os.Getenv("GVC_NO_REPLAY") != "" {
+		// only the must-fail corpus on a scratch clone sets this: there the question is whether a clause fails, and
+		// compiling the package's test binary for every refuted clause of every change dominates the run time
+		out.Detail = "replay skipped (GVC_NO_REPLAY)"
+		return out
+	}
 	var g *Gen
 	for _, x := range currentGens {
 		if x.key == r.O.Func {
